@@ -859,7 +859,7 @@ pub fn run(run: &mut Run) {
     // (a) history words
     let full = seeds::alphabet_full();
     let depth = if thorough { 2 } else { 1 };
-    let core = seeds::alphabet_core();
+    let core = full.clone();
     for len in 2..=depth {
         let cfg = HistCfg {
             seeds: seeds::SEEDS.to_vec(),
@@ -882,7 +882,7 @@ pub fn run(run: &mut Run) {
             unspec += w.unspecified;
             run.add_all(w.ds);
         }
-        bounds.push(json!({"family": "history words (interaction sub-alphabet)", "length": len, "alphabet_size": core.len(), "seeds": seeds::SEEDS,
+        bounds.push(json!({"family": "history words (full alphabet)", "length": len, "alphabet_size": core.len(), "seeds": seeds::SEEDS,
             "words_ok": st.words, "words_cut_at_first_error": st.words_cut}));
     }
     bounds.push(json!({"family": "history words (full alphabet)", "length": 1, "alphabet_size": full.len(), "seeds": seeds::SEEDS}));
